@@ -123,3 +123,16 @@ class _RangeProbe:
 @register("qcow2_subcluster_range")
 def open_qcow2_range(files, opaque, p):
     return _RangeProbe(bool(p.get("data_file")))
+
+
+@register("vmdk_sparse")
+def open_vmdk_sparse(files, opaque, p):
+    from dissect.hypervisor.disk import vmdk
+
+    parent = RawStream(opaque["parent"]) if p.get("has_parent") else None
+    if p.get("via") == "disk":
+        return vmdk.SparseDisk(files["img"], parent=parent)
+    obj = vmdk.VMDK(files["img"])
+    if parent is not None:
+        obj.disks[0].parent = parent
+    return obj
